@@ -992,12 +992,13 @@ impl InferContext {
 
     /// Check for circular references in type aliases
     fn check_type_alias_cycles(&mut self, type_aliases: &TypeAliasMap) {
-        let errors: Vec<_> = type_aliases
-            .iter()
+        // Report the aliases in the order of their names, not in that of the hash map.
+        let errors: Vec<_> = sorted_by_name(type_aliases)
+            .into_iter()
             .filter_map(|(alias_name, target_type)| {
-                Self::detect_type_alias_cycle(*alias_name, type_aliases).map(|cycle| {
+                Self::detect_type_alias_cycle(alias_name, type_aliases).map(|cycle| {
                     Error::RecursiveTypeAlias {
-                        type_name: *alias_name,
+                        type_name: alias_name,
                         cycle,
                         location: target_type.to_loc(),
                     }
